@@ -47,3 +47,18 @@ PROPS["C03"] = {
     "level_text": "Bounded symbolic model checking of the real escaper and of the real parse+render pipeline around evalPrint: the printed value is symbolic, every path of the escaping code is discharged by the solver, so value-dependent holes (a special character that slips through only for certain values) are found or excluded within the bound.",
     "level_note": "Bounds: value length, directive chains from the built-in table, contexts listed in evidence. Trusted: go/ssa, gosym (native replay), z3, reference decoder.",
 }
+
+# ---------------------------------------------------------------- C12
+PROPS["C12"] = {
+    "jobs": [
+        Job("soyhtml", "H_fault", "0..5,0..3,false", workers=16),
+        Job("soyhtml", "H_fault", "0..5,0..1,true", workers=16),
+        Job("soyhtml", "H_fault", "0..5,0..3,true", tier="thorough", workers=16),
+    ],
+    "bounds_quick": "6 templates covering every write site of the tree walker (raw text, escaped/unescaped print, css, literal, special chars, msg text/html tag/placeholder, let and param content blocks, log, call, data=all call, foreach, switch) x 4 data strings; the failure decision of every Write call is a symbolic boolean (every failure index explored); short writes with a symbolic accepted prefix length for 2 data strings",
+    "bounds_thorough": "short writes for all 4 data strings",
+    "outside": "templates other than the listed ones; writers that fail and later recover",
+    "assumptions": ["a writer that has failed keeps failing"],
+    "level_text": "Bounded symbolic model checking with the fault schedule as the symbolic input: each Write's outcome is a solver variable, so every failure index (and every accepted-prefix length) of every write site is decided, not sampled.",
+    "level_note": "Bounds: the template/data dictionary in evidence.bounds. Trusted: go/ssa, gosym (native replay of every counterexample), z3.",
+}
